@@ -760,6 +760,21 @@ func runPlan(p *Plan, trace bool, collectCover bool) *runResult {
 			}
 		})
 	}
+	// input vault: the strings handed to the library must not change either
+	var inHash uint64
+	inputs := func() uint64 {
+		h := uint64(1469598103934665603)
+		for _, t := range p.Tasks {
+			for _, op := range t {
+				h = (h ^ strHash(op.S)) * 1099511628211
+				h = (h ^ strHash(op.S2)) * 1099511628211
+			}
+		}
+		return h
+	}
+	if p.Prop == "C14" {
+		inHash = inputs()
+	}
 	races0 := rt.RaceErrors()
 	sim.Run()
 	page.unprotect()
@@ -796,6 +811,9 @@ func runPlan(p *Plan, trace bool, collectCover bool) *runResult {
 			res.Viol = append(res.Viol, Violation{Prop: "C14", Class: "deadlock", Task: -1, Op: -1, Detail: "all caller tasks are blocked inside library calls: a call that returns alone does not return beside others", NeedsRun: -1})
 		case "no-progress":
 			res.Viol = append(res.Viol, Violation{Prop: "C14", Class: "no-progress", Task: -1, Op: -1, Detail: "point budget exhausted: a library call does not finish under this schedule", NeedsRun: -1})
+		}
+		if inputs() != inHash {
+			res.Viol = append(res.Viol, Violation{Prop: "C14", Class: "input-modified", Task: -1, Op: -1, Detail: "a string passed to the library as an argument has different bytes after the run", NeedsRun: -1})
 		}
 		// O2(a): strings and errors never change after they were handed out
 		for _, tc := range x.tasks {
